@@ -105,21 +105,18 @@ void checkLP(const SPxLPBase<R>& lp, const NameSet* rn, const NameSet* cn, const
    if(isNaN(lp.objOffset())) vfz::fail(w + "NaN objective offset");
    if(rn)
    {
-      bool tolerated = false;
       if(rn->num() != m)
       {
-         // known finding lpf-dup-rowname: a repeated (or C<k>-colliding) row label is silently not stored
-         if(fmtLP && rn->num() < m && vfz::known("lpf-dup-rowname"))
-         {
-            vfz::count("excluded_known.lpf-dup-rowname");
-            tolerated = true;
-         }
+         // known finding lpf-rowname-desync: the LP-format reader stores row labels independently of the rows it
+         // completes (a repeated label or one colliding with a generated C<k> is dropped, a label on a
+         // continuation line is added), so the name set and the rows get out of step
+         if(fmtLP && vfz::known("lpf-rowname-desync")) vfz::count("excluded_known.lpf-rowname-desync");
          else vfz::fail(w + "row NameSet size differs from nRows");
       }
       for(int i = 0; i < rn->num(); i++)
       {
          if(!rn->has(i)) vfz::fail(w + "row NameSet has a hole");
-         if(rn->number((*rn)[i]) != i && !tolerated)
+         if(rn->number((*rn)[i]) != i)
          {
             if(strlen((*rn)[i]) >= SPX_MAXSTRLEN - 1 && vfz::known("nameset-long-name")) vfz::count("excluded_known.nameset-long-name");
             else vfz::fail(w + "row name does not resolve back to its index");
@@ -157,13 +154,35 @@ void one(int sel, const std::string& content, const char* tag)
       return;
    }
    if(parsedAsMps) vfz::completeMps(text);
+   if(parsedAsMps && std::is_same<R, Rational>::value && vfz::known("mps-rational-rows-null")
+         && vfz::known("mps-eof-hang") && vfz::mpsRowsLineWithoutName(text))
+   {
+      vfz::count("excluded_known.mps-rational-rows-null");
+      return;
+   }
+   if(std::is_same<R, Rational>::value && vfz::known("rat-exponent-overflow") && vfz::hasHugeExponent(text))
+   {
+      vfz::count("excluded_known.rat-exponent-overflow");
+      return;
+   }
+   if(std::is_same<R, Rational>::value && vfz::known("rat-zero-denominator") && vfz::hasZeroDenominator(text))
+   {
+      vfz::count("excluded_known.rat-zero-denominator");
+      return;
+   }
+   if(!parsedAsMps && noNames && vfz::known("lpf-noname-leak"))
+   {
+      // known finding: readLPF frees its private NameSets without running their destructors
+      noNames = false;
+      vfz::count("excluded_known.lpf-noname-leak");
+   }
    SPxOut out;
    out.setVerbosity(SPxOut::ERROR);
    std::shared_ptr<Tolerances> tol = std::make_shared<Tolerances>();
    SPxLPBase<R> lp;
    lp.setOutstream(out);
    lp.setTolerances(tol);
-   NameSet rn, cn;
+   NameSet rn(16, 256), cn(16, 256);   // small: exercises the growth paths, and 10x faster under ASan
    DIdxSet iv;
    NameSet* prn = noNames ? nullptr : &rn;
    NameSet* pcn = noNames ? nullptr : &cn;
@@ -199,10 +218,11 @@ void one(int sel, const std::string& content, const char* tag)
    }
    // usable afterwards: the same object reads a good LP
    bool ok2 = false;
+   DIdxSet iv2;   // the readers only add to the caller's index set, they never clear it
    try
    {
       std::istringstream in(GOOD_LP);
-      ok2 = lp.readLPF(in, &rn, &cn, &iv);
+      ok2 = lp.readLPF(in, &rn, &cn, &iv2);
    }
    catch(...)
    {
@@ -210,7 +230,7 @@ void one(int sel, const std::string& content, const char* tag)
    }
    if(!ok2) vfz::fail("object unusable after the read: re-reading a good LP failed");
    if(lp.nRows() != 3 || lp.nCols() != 3 || lp.nNzos() != 7) vfz::fail("object unusable after the read: good LP has wrong dimensions");
-   checkLP(lp, &rn, &cn, &iv, "good LP after the read", true);
+   checkLP(lp, &rn, &cn, &iv2, "good LP after the read", true);
 }
 } // namespace
 
